@@ -99,6 +99,9 @@ class Ctx:
         a["functions_in_model"] = len(self.repo.functions)
         a["classes_in_model"] = len(self.repo.classes)
         a["source_digest"] = self.repo.digest[:16]
+        if self.repo.unbundle_notes:
+            # private aggregates replaced by scalar attributes before analysis
+            a["aggregates_unbundled"] = list(self.repo.unbundle_notes)
         if self._types is not None:
             a["type_oracle"] = self._types.stats()
         if self._res is not None:
@@ -121,6 +124,9 @@ def run_property(prop, tier="quick", seed=0, overlay=None, root=REPO_ROOT, write
                 f"only {len(ctx.repo.modules)} source files found under "
                 f"{root}/job_shop_lib (floor 55)"
             )
+        if not quiet:
+            for note in ctx.repo.unbundle_notes:
+                print(f"note: private aggregate {note} (line numbers followed by ~ are mapped back from the rewritten source)")
         mod = importlib.import_module(f"jslstatic.rules.{prop.lower()}")
         ctx.chk.undecided = list(getattr(mod, "UNDECIDED", []))
         ctx.chk.assumptions = list(getattr(mod, "ASSUMPTIONS", []))
